@@ -15,7 +15,8 @@ def run(ctx):
     ]
     ctx.translate("templates", templates.run, os.path.join(ctx.work, "gen"),
                   os.path.join(ctx.work, "templates.json"))
-    ctx.coq(["templates.v"], ["C01.v"])
+    ctx.translate("fusers", templates.run_fusers, os.path.join(ctx.work, "gen"), os.path.join(ctx.work, "fusers.json"))
+    ctx.coq(["templates.v", "fusers.v"], ["C01.v"])
     if os.path.exists(os.path.join(ctx.work, "templates.json")):
         ctx.harness("corr_C01.py", kind="corr")
     ctx.harness("sweep_C01.py")
